@@ -1,7 +1,7 @@
 (* C10 — correspondence: the harness writes histories with the outputs the Go implementation
    produced; check_case re-runs the model M on the history, compares, and judges a difference
    by the specification S inside the guard. *)
-From C10 Require Import Model Spec Proofs.
+From C10 Require Import Model Spec Proofs ModelDoc.
 
 Fixpoint list_eqb {A} (eqb : A -> A -> bool) (a b : list A) : bool :=
   match a, b with
@@ -31,7 +31,10 @@ Definition out_eqb (a b : out) : bool :=
   | _, _ => false
   end.
 
-Record case := { k_ct : ctable; k_n : nat; k_ops : list op; k_obs : list out }.
+(* the operations are written with the spelling of each method's parameters (ModelDoc.sop): the
+   model run is the spelled one (srun with the table's renderer, the repaired remove-method); S is
+   judged on the erased history *)
+Record case := { k_ct : ctable; k_n : nat; k_ops : list sop; k_obs : list out }.
 
 (* does the observed output violate S at some call inside the guard? *)
 Fixpoint spec_violation (ct : ctable) (tbl : list (key * combo)) (ops : list op) (obs : list out) : bool :=
@@ -49,8 +52,8 @@ Fixpoint spec_violation (ct : ctable) (tbl : list (key * combo)) (ops : list op)
    2: model <> observed and the observed outputs violate S inside the guard;
    3: self-check: model = observed but an in-guard call differs from S (contradicts C10_run_eq_spec_partial) *)
 Definition check_case (c : case) : N :=
-  let m := snd (run (k_ct c) (new_aux (k_n c)) (k_ops c)) in
-  let viol := spec_violation (k_ct c) [] (k_ops c) (k_obs c) in
+  let m := snd (srun form_key (k_ct c) (new_saux (k_n c)) (k_ops c)) in
+  let viol := spec_violation (k_ct c) [] (map erase (k_ops c)) (k_obs c) in
   if list_eqb out_eqb m (k_obs c) then (if viol then 3%N else 0%N)
   else if viol then 2%N else 1%N.
 
@@ -70,4 +73,10 @@ Fixpoint in_guard_calls (ct : ctable) (tbl : list (key * combo)) (ops : list op)
                  + in_guard_calls ct (spec_step tbl o) ops')%N
   end.
 Definition guard_count (cs : list case) : N :=
-  fold_left (fun acc c => (acc + in_guard_calls (k_ct c) [] (k_ops c))%N) cs 0%N.
+  fold_left (fun acc c => (acc + in_guard_calls (k_ct c) [] (map erase (k_ops c)))%N) cs 0%N.
+
+(* how many methods of the cases were written with a bare parameter *)
+Definition bare_defs (cs : list case) : N :=
+  fold_left (fun acc c => (acc + N.of_nat (List.length (filter (fun o => match o with
+     | SDef _ ps _ => existsb (fun p => match p with None => true | Some _ => false end) ps
+     | _ => false end) (k_ops c))))%N) cs 0%N.
